@@ -90,6 +90,22 @@ def run(arg, pid, tier, seed):
                     report("C19.overflow_reported", dict(nvars=nvars, height=h), f"raw IndexError: {e}")
             except Exception as e:  # noqa
                 report("C19.overflow_reported", dict(nvars=nvars, height=h), f"{type(e).__name__}: {e}")
+        # index types: more shared domains / variables than the 16-bit index arrays can address must be refused (or handled correctly), never wrapped
+        for nd in (65536, 65537, 65540):
+            ev += 1
+            try:
+                p = Problem([(0, 1)] + [(0, 0)] * (nd - 2) + [(5, 6)])
+                p.add_propagator(([nd - 1, 0], ALGS["affine_eq"], [1, -1, 5]))
+                s = BacktrackSolver(p, decision_domains=[0], log_level="ERROR")
+                got = sorted((int(x[0]), int(x[nd - 1])) for x in s.solve())
+                if got != [(0, 5), (1, 6)]:
+                    report("C19.index_capacity", dict(shared_domains=nd), f"{nd} shared domains accepted and solved wrongly: (x0, x_last) = {got[:4]} instead of [(0, 5), (1, 6)]")
+                else:
+                    nontriv += 1
+            except (OverflowError, ValueError, IndexError, MemoryError):
+                nontriv += 1
+            except Exception as e:  # noqa
+                report("C19.index_capacity", dict(shared_domains=nd), f"{type(e).__name__}: {e}")
     return dict(suite="init:" + arg, evaluations=ev, distinct_nontrivial=nontriv, violations=viol, samples=samples,
                 rule="random small problems (see engine:small) through Problem.init; capacity scenarios for C19; non-trivial = several constraints or aliased variables / a refused or reported capacity",
                 scope=f"{n} problems")
